@@ -147,6 +147,7 @@ class Interp(object):
     self.fork_count = 0
     self.obligation_timeout_ms = 20000
     self.merge_cap = 6
+    self.log_depth = 0
 
   # ------------------------------------------------------------------
   # function objects
@@ -1482,12 +1483,17 @@ class Interp(object):
   def ev_Call(self, node, st, ctx, k):
     # logging calls: arguments are evaluated, the call is dropped
     if self.is_dropped_call(node, ctx):
+      # arguments of logging calls are evaluated (a crash inside them is a real crash); text-processing
+      # methods that are not modelled yield opaque text there instead of putting the function out of reach
+      self.log_depth += 1
+      lctx = ctx.replace(exc_k=lambda s, e: (self._log_leave(), ctx.exc_k(s, e))[1])
       def got_args(st2, args):
         def got_kw(st3, kws):
           self.dropped_calls += 1
+          self._log_leave()
           return k(st3, None)
-        return self.ev_keywords(node.keywords, st2, ctx, got_kw)
-      return self.ev_list(node.args, st, ctx, got_args)
+        return self.ev_keywords(node.keywords, st2, lctx, got_kw)
+      return self.ev_list(node.args, st, lctx, got_args)
     def got_f(st2, f):
       def got_args(st3, args):
         def got_kw(st4, kws):
@@ -1507,6 +1513,10 @@ class Interp(object):
         raise Unsupported("zero-argument super() outside a method")
       return k(st, SuperProxy(owner, first))
     return self.ev(node.func, st, ctx, got_f)
+
+  def _log_leave(self):
+    if self.log_depth > 0:
+      self.log_depth -= 1
 
   def is_dropped_call(self, node, ctx):
     f = node.func
